@@ -1,42 +1,21 @@
 package c06
 
 import (
-	"encoding/json"
-	"fmt"
-	"os"
-	"strings"
-	"sync"
 	"testing"
 
 	"verif/h/ev"
 	lm "verif/h/logmodel"
 )
 
-// Two findings were reported to the lead. Each takes effect only if
-// KNOWN_FINDINGS.json lists it (property C06, the key below, status "open") AND it
-// still reproduces on its witness; otherwise the check is strict and reports it.
-//
-// keyLogAppend - KIP-32: "If the timestamp type of the wrapper message is
-// LogAppendTime, the timestamp of the wrapper message is used for all inner
-// messages" (a broker with message.timestamp.type=LogAppendTime overwrites only the
-// wrapper's timestamp and attribute bit so that it need not recompress).
-// processV1OuterMessage gives inner records their own stored create time and
-// timestamp type 0. Input class: v1 compressed wrapper with the log-append-time bit;
-// excluded by construction in the generator.
-//
-// keyVarint - readRawRecordsInto computes total = used + length with used = -5 for
-// an overlong/overflowing record-length varint (kbin.Varint's error return) and
-// slices in[:total] with a negative bound. Input class: a v2 batch that passes the
-// length and CRC checks and whose record section has an overlong 5-byte varint where
-// a record length is expected; recognised by the panic site (arbitrary bytes cannot
-// be filtered by construction without decoding them).
-const (
-	keyLogAppend = "v1-compressed-wrapper-with-log-append-time-inner-records-keep-their-create-time"
-	keyVarint    = "v2-record-length-varint-overlong-panics-readRawRecordsInto"
-)
+// Two defects found by this check were repaired in /repo (KNOWN_FINDINGS.json,
+// "fixed": 9e25c74 and 2115fdf; reverse patches in /verif/seeded/orig-C06-*). Nothing
+// is excluded for them; their minimal witnesses stay here as fixed regression cases
+// next to the generators that found them.
 
-// witnessLogAppend: one v1 gzip wrapper at offsets 100..101, wrapper timestamp
-// 1600000000000 with the log-append-time bit, inner create times 1599999999000/500.
+// witnessLogAppend: KIP-32 - "If the timestamp type of the wrapper message is
+// LogAppendTime, the timestamp of the wrapper message is used for all inner
+// messages". One v1 gzip wrapper at offsets 100..101, wrapper timestamp 1600000000000
+// with the log-append-time bit, inner create times 1599999999000 / 1599999999500.
 func witnessLogAppend() (*lm.Log, call) {
 	l := &lm.Log{Batches: []lm.Batch{{
 		Format: lm.V1, Codec: lm.Gzip, Inner: lm.InnerRelative, Marker: lm.NoMarker,
@@ -51,91 +30,35 @@ func witnessLogAppend() (*lm.Log, call) {
 }
 
 // witnessVarint: a v2 batch with valid length and CRC, record count 1 and the record
-// section 80 80 80 80 80.
-func witnessVarint() (*lm.Log, call) {
+// section 80 80 80 80 80 (an overlong varint where a record length is expected;
+// kbin.Varint reports it as (0, -5)).
+func witnessVarint() call {
 	one := int32(1)
 	l := &lm.Log{Batches: []lm.Batch{{
 		Format: lm.V2, Marker: lm.NoMarker, ProducerID: -1, ProducerEpoch: -1, BaseSequence: -1,
 		RawRecords: []byte{0x80, 0x80, 0x80, 0x80, 0x80}, CountOverride: &one,
 	}}}
 	in, _ := l.Encode()
-	return l, call{in: in}
+	return call{in: in}
 }
 
-func isVarintPanic(o *outcome) bool {
-	// kbin.Varint reports an overlong varint as (0, -5), so the bound is exactly -5
-	return o.panicked != nil && strings.HasSuffix(fmt.Sprint(o.panicked), "slice bounds out of range [:-5]") &&
-		strings.Contains(o.stack, "kgo.readRawRecordsInto")
-}
+func TestWitnesses(t *testing.T) {
+	l, c := witnessLogAppend()
+	want, next := l.Expect(c.q, 1)
+	o := run(c)
+	ev.Case("witness|"+digest(c.in, c), false)
+	if o.panicked != nil || o.fp.Err != nil {
+		report(t, "v1 compressed wrapper with log append time", l, c, &o, want, next)
+	}
+	if d := equalDiff(&o, want, next); d != "" {
+		report(t, "v1 compressed wrapper with log append time (KIP-32: inner records take the wrapper's timestamp and timestamp type): "+d, l, c, &o, want, next)
+	}
 
-type knownState struct {
-	listed, hit bool
-	detail      string
-}
-
-var (
-	knownOnce sync.Once
-	known     = map[string]*knownState{keyLogAppend: {}, keyVarint: {}}
-)
-
-func knownProbe() {
-	knownOnce.Do(func() {
-		if raw, err := os.ReadFile(os.Getenv("VERIF_KNOWN")); err == nil {
-			var k struct {
-				Findings []struct {
-					Property string `json:"property"`
-					Key      string `json:"key"`
-					Status   string `json:"status"`
-				} `json:"findings"`
-			}
-			if json.Unmarshal(raw, &k) == nil {
-				for _, f := range k.Findings {
-					if st := known[f.Key]; st != nil && f.Property == "C06" && f.Status == "open" {
-						st.listed = true
-					}
-				}
-			}
-		}
-		l, c := witnessLogAppend()
-		want, next := l.Expect(c.q, 1)
-		if o := run(c); o.panicked == nil {
-			if d := equalDiff(&o, want, next); d != "" {
-				known[keyLogAppend].hit = true
-				known[keyLogAppend].detail = fmt.Sprintf("%s; witness %s; got %s", d, c, describeGot(o.fp.Records))
-			}
-		}
-		_, c = witnessVarint()
-		if o := run(c); isVarintPanic(&o) {
-			known[keyVarint].hit = true
-			known[keyVarint].detail = fmt.Sprintf("panic: %v; witness %s", o.panicked, c)
-		}
-	})
-}
-
-// knownActive: the class is excluded only when the finding is listed as open AND
-// still reproduces on the witness.
-func knownActive(key string) bool {
-	knownProbe()
-	return known[key].listed && known[key].hit
-}
-
-func TestKnownFindingWitness(t *testing.T) {
-	knownProbe()
-	ev.Case("known-witness", false)
-	for _, key := range []string{keyLogAppend, keyVarint} {
-		st := known[key]
-		switch {
-		case st.hit && st.listed:
-			ev.KnownFinding("C06", "key="+key+" confirmed on the witness: "+st.detail)
-		case st.hit && key == keyLogAppend:
-			l, c := witnessLogAppend()
-			want, next := l.Expect(c.q, 1)
-			o := run(c)
-			report(t, "v1 compressed wrapper with log append time (KIP-32: inner records take the wrapper's timestamp and timestamp type): "+st.detail, l, c, &o, want, next)
-		case st.hit:
-			_, c := witnessVarint()
-			o := run(c)
-			report(t, "v2 batch with valid length and CRC whose record section starts with an overlong varint", nil, c, &o, nil, 0)
-		}
+	c = witnessVarint()
+	ev.Case("witness|"+digest(c.in, c), true)
+	hostileCheck(t, c, true)
+	// the batch claims one record at offset 0 that cannot be decoded: it must not be skipped
+	if o := run(c); o.panicked == nil && (len(o.fp.Records) != 0 || o.next != 0) {
+		report(t, "undecodable record section: nothing can be returned and the next offset must stay at 0", nil, c, &o, nil, 0)
 	}
 }
